@@ -15,10 +15,12 @@ open Gen
 
 abbrev Text := Bytes
 
-/-- The two library functions the code relies on.  `str16 b` is `net.IP(b).String()` for a 16-byte
+/-- The library functions the code relies on.  `str4 b` is `net.IP(b).String()` for a 4-byte address
+(dotted decimal; the driver instantiates it with `dotted` below), `str16 b` the same for a 16-byte
 address that is not IPv4-mapped; `parse h` is `net.ParseIP(h)` followed by the code's
 `To4()`/`To16()` cascade: `none` (not an IP literal), 4 bytes (IPv4 or IPv4-mapped), or 16 bytes. -/
 structure IPText where
+  str4 : Bytes → Text
   str16 : Bytes → Text
   parse : Text → Option Bytes
 
@@ -36,7 +38,7 @@ def putBe16 (p : Nat) : Bytes := [u8 (p / 256 % 256), u8 (p % 256)]
 def decText (n : Nat) : Text := (Nat.repr n).toList.map (fun ch => UInt8.ofNat ch.toNat)
 
 /-- Dotted decimal of a 4-byte address. -/
-def str4 : Bytes → Text
+def dotted : Bytes → Text
   | [a, b, c, d] =>
     decText a.toNat ++ [46] ++ decText b.toNat ++ [46] ++ decText c.toNat ++ [46] ++ decText d.toNat
   | _ => [63]
@@ -47,8 +49,8 @@ def isV4Mapped (b : Bytes) : Bool :=
 
 /-- `net.IP(b).String()` for `len(b)` 4 or 16. -/
 def ipString (c : IPText) (b : Bytes) : Text :=
-  if b.length = 4 then str4 b
-  else if isV4Mapped b then str4 (b.drop 12)
+  if b.length = 4 then c.str4 b
+  else if isV4Mapped b then c.str4 (b.drop 12)
   else c.str16 b
 
 /-! ### Stream parsers: a program of `io.ReadFull` calls
